@@ -245,3 +245,80 @@ func (d *driver) scenarioRePutOverExisting(blocks []*block) {
 	rec.stop()
 	os.RemoveAll(w.dir)
 }
+
+// scenarioSharedAccessor: several readers share ONE cached accessor of an ODS-only block and do their
+// first reads at the same moment: upper-half rows (served from the file or from the accessor's
+// in-memory square once it is there) against lower-half rows (which load that square). Every byte is
+// compared; the race detector watches the accessor's internal caches.
+func (d *driver) scenarioSharedAccessor(blocks []*block) {
+	if d.dead {
+		return
+	}
+	id := "scenario/shared-accessor-first-reads"
+	d.nw++
+	w, err := newWorld(d.root, d.nw, blocks, 0, 2)
+	if err != nil {
+		d.t.Fatal(err)
+	}
+	base := openFDs(w.dir)
+	rec.start()
+	rounds := 24
+	for r := 0; r < rounds && !d.dead; r++ {
+		b := blocks[r%2]
+		d.doOp(w, nil, "PutODS", b, id)
+		const readers = 4
+		accs := make([]storeAccessor, readers)
+		for i := range accs {
+			a, err := w.cs.GetByHeight(d.ctx, b.H)
+			if err != nil {
+				d.rep.Inconclusivef("%s: CachedStore.GetByHeight failed: %v", id, err)
+				d.dead = true
+				break
+			}
+			accs[i] = a
+		}
+		if d.dead {
+			break
+		}
+		start := make(chan struct{})
+		done := make(chan []storeref.Mismatch, readers)
+		for i := 0; i < readers; i++ {
+			go func(i int) {
+				<-start
+				rnd := rand.New(rand.NewSource(int64(r*10 + i)))
+				var all []storeref.Mismatch
+				for k := 0; k < 12; k++ {
+					// readers 0,1: lower half first (loads the in-memory square); 2,3: upper half rows
+					mm, n := storeref.ReadSome(d.ctx, accs[i], b.Ref, rnd, 1, i < 2)
+					d.rep.Count("reads_compared", int64(n))
+					all = append(all, mm...)
+				}
+				done <- all
+			}(i)
+		}
+		close(start)
+		for i := 0; i < readers; i++ {
+			select {
+			case mm := <-done:
+				if len(mm) > 0 {
+					d.rep.Violate("C08/reader-saw-wrong-data/shared-cached-accessor",
+						fmt.Sprintf("%s: readers sharing one cached accessor of height %d read data that is not the block's: %v", id, b.H, mm),
+						map[string]any{"scenario": id, "height": b.H, "mismatches": mm})
+				}
+			case <-time.After(60 * time.Second):
+				d.rep.Inconclusivef("%s: readers did not finish", id)
+				d.dead = true
+			}
+		}
+		for _, a := range accs {
+			a.Close()
+		}
+		d.doOp(w, nil, "RemoveODSQ4", b, id)
+	}
+	d.rep.Count("scenario_shared_accessor", 1)
+	if !d.dead {
+		d.teardown(w, id, base)
+	}
+	rec.stop()
+	os.RemoveAll(w.dir)
+}
